@@ -22,7 +22,8 @@ LEVEL = 'fault_enumeration'
 RULE = ('Valid documents of every selectable map, envelope skeletons and raw strings, hit by 1..4 faults from a 29-kind '
         'structural catalogue (delete/duplicate/swap/move/retag segment, truncate at segment or character, orphan trailers, '
         'nested headers, non-numeric/missing counts, extra elements/components, empty and blank-only segments, doubled '
-        'terminators, over-long segments, byte flips, delimiters dropped into data, damaged ISA) plus the 24 envelope faults of '
+        'terminators, over-long segments, byte flips, delimiters dropped into data, damaged ISA, non-ASCII characters, letters or '
+        'digits as delimiters, a registered but unloadable map) plus the envelope faults of '
         'C04, then run through one of three entry points under a chunk plan, an EOF offset (sampled; for documents <= 4 KiB every 50th run of the thorough tier (<= 1.2 KiB, every 500th, in the '
         'quick tier) sweeps *every* offset), one of the 8 sink subsets and a charset. distinct_nontrivial = distinct '
         '(entry point, sink subset, sorted fault kinds, outcome class) keys.')
